@@ -170,13 +170,18 @@ def main(tier, replay=None):
                          "history %d: flag %s with %d inputs and %d outputs: SignRawTx answered '%s' (witness shape left in the caller's object: %s)" % (h, fl, nin, no, im, shp))
                 else:
                     viol("sign-ok:%s" % imc, "history %d: right passphrase, own unspent inputs %s, flag %s, %d outputs: SignRawTx answered %s" % (h, inputs, fl, no, im))
-            if not is_right and nin > 0:
+            presigned = any(d.split(":")[7] != "0" for d in ins)
+            witsame = "witsame=0" not in note
+            if not is_right and nin > 0 and not witsame:
+                viol("wrong-pass-material", "history %d: a wrong passphrase (%r) changed the witnesses of the caller's transaction (%s; inputs %s)" % (h, bytes.fromhex(passhex), note, inputs))
+            if not is_right and nin > 0 and not (fl.startswith("SINGLE") and no == 0):
                 rawp, rr = bytes.fromhex(passhex), bytes.fromhex(right.get(h, ""))
-                if im == "ok" and rawp != rr and rawp.rstrip(b"\x00") == rr:
+                if im == "ok" and not presigned and rawp != rr and rawp.rstrip(b"\x00") == rr:
                     viol("passphrase-trailing-nul-equivalent", "history %d: SignRawTx accepted the candidate passphrase %r (the passphrase followed by NUL bytes)" % (h, rawp))
                 elif im == "ok":
-                    viol("wrong-pass-accepted", "history %d: SignRawTx succeeded with a wrong passphrase (%r) on %s" % (h, bytes.fromhex(passhex), inputs))
-                if any(x != "0" for x in shp.split(".")):
+                    viol("wrong-pass-accepted-on-signed-tx" if presigned else "wrong-pass-accepted",
+                         "history %d: SignRawTx succeeded with a wrong passphrase (%r), flag %s, %d outputs, on %s (%s)" % (h, bytes.fromhex(passhex), fl, no, inputs, note))
+                if not presigned and any(x != "0" for x in shp.split(".")):
                     viol("wrong-pass-material", "history %d: a wrong passphrase left witness data in the transaction: %s" % (h, shp))
                 if clean and fl in SIX and not (fl.startswith("SINGLE") and no == 0) and im != "err:invalid-passphrase" and im != "ok":
                     viol("wrong-pass-error:%s" % imc, "history %d: wrong passphrase on signable inputs answered %s, expected the passphrase error" % (h, im))
